@@ -83,9 +83,23 @@ def gen_job(verif_seed, tier, index):
     job["c07_mode"] = mode
     if kinds:
         job["build_spec"] = bldgen.gen_build_spec(g, spec, box, kinds, est_size=sizes)
+    if mode == "cycle" and g.random() < 0.5:
+        for mt in spec["moltypes"]:
+            n = len(mt["residues"])
+            if mt["shape"] == "ring" and n >= 6 and any(nm == mt["name"] for nm, _ in spec["molecules"]):
+                idxs = [i for i, m in enumerate(bldgen.instances(spec)) if m["name"] == mt["name"]]
+                run = [idxs[0]]
+                while run[-1] + 1 in idxs:
+                    run.append(run[-1] + 1)
+                b = g.randint(3, min(5, n - 2))
+                job["build_spec"] = (job.get("build_spec") or []) + [{
+                    "mol": mt["name"], "from": run[0], "to": run[-1] + 1,
+                    "items": [{"kind": "dist", "a": 1, "b": b, "d": round(0.45 * (b - 1) * sizes, 3), "tol": 0.25}]}]
+                job["ring_with_distance_restraint"] = True
+                break
     if mode in ("geom", "rw") and g.random() < 0.3:
         jobgen.add_list_order(job, g)
-    if g.random() < 0.25 and mode in ("geom", "rw", "cycle"):
+    if g.random() < 0.25 and mode in ("geom", "rw", "cycle") and not job.get("ring_with_distance_restraint"):
         # -start on a molecule that also has a persistence length (which fixes the first residue itself) or a
         # distance restraint spanning the start residue is a contradictory / refused input: not generated
         jobgen.add_start(job, g)
